@@ -276,6 +276,103 @@ theorem swap_delivered_monitor {env : Env} {s s' : State} {m : MsgSwap} {r : Res
     · rw [a3]; omega
     · rw [a1]; omega
 
+/-- everything about a successful swap order in one statement (one set of witnesses): the pool, the
+effect list, and per order kind the user's bounds and the rounding of the executed amounts -/
+theorem swap_full {env : Env} {s s' : State} {m : MsgSwap} {r : Resp} (h : swap env s m = .ok (s', r)) :
+    ∃ (sold bought : Nat) (esc : Addr) (p : Pool),
+      s.poolByCounter (counterOf s.std m.inDenom m.outDenom) = some p ∧ env.reserve p.lpt = .ok esc ∧
+      s.bank.applyAll (swapEffs m.inAddr.bytes m.outAddr.bytes esc m.inDenom sold m.outDenom bought) = .ok s'.bank ∧
+      m.inDenom ≠ m.outDenom ∧
+      (m.isBuy = false → sold = m.inAmt.toNat ∧ m.outAmt.toNat ≤ bought ∧
+        (let X := s.bank.get esc m.inDenom
+         let Y := s.bank.get esc m.outDenom
+         let df := S18 - s.params.fee
+         bought * (X * S18 + sold * df) ≤ sold * df * Y ∧ sold * df * Y < (bought + 1) * (X * S18 + sold * df))) ∧
+      (m.isBuy = true → bought = m.outAmt.toNat ∧ sold ≤ m.inAmt.toNat ∧ 1 ≤ sold ∧
+        (let X := s.bank.get esc m.inDenom
+         let Y := s.bank.get esc m.outDenom
+         let df := S18 - s.params.fee
+         (sold - 1) * ((Y - bought) * df) ≤ X * bought * S18 ∧ X * bought * S18 < sold * ((Y - bought) * df))) := by
+  obtain ⟨F⟩ := swap_ok h
+  have hbank := F.hBank
+  rw [decode_ok F.hSender, decode_ok F.hRcpt] at hbank
+  cases hb : m.isBuy with
+  | false =>
+    have ht := F.hTrade; rw [hb] at ht
+    obtain ⟨q, hpf, hsold, _, _, hp, hmin, _⟩ := trade_sell_ok ht
+    obtain ⟨_, _, hfind, hres, _⟩ := poolFor_ok hpf
+    obtain ⟨hfee, hne, hbt⟩ := inputPrice_ok hp
+    refine ⟨F.sold, F.bought, F.esc, q, hfind, hres, hbank, F.denomsNe, ?_, ?_⟩
+    · intro _
+      refine ⟨hsold, hmin, ?_⟩
+      simp only
+      rw [hsold, hbt]
+      constructor
+      · exact Nat.div_mul_le_self _ _
+      · have hpos : 0 < s.bank.get F.esc m.inDenom * S18 + m.inAmt.toNat * (S18 - s.params.fee) := Nat.pos_of_ne_zero hne
+        exact Nat.lt_mul_of_div_lt (Nat.lt_succ_self _) hpos
+    · intro hx; cases hx
+  | true =>
+    have ht := F.hTrade; rw [hb] at ht
+    obtain ⟨q, hpf, hbought, _, _, hlt, hp, hmax, _⟩ := trade_buy_ok ht
+    obtain ⟨hne', _, hfind, hres, _⟩ := poolFor_ok hpf
+    obtain ⟨hfee, _, hne, hs⟩ := outputPrice_ok hp
+    have hc : counterOf s.std m.inDenom m.outDenom = counterOf s.std m.outDenom m.inDenom := by
+      unfold counterOf
+      rcases F.oneStd with h1 | h1
+      · have : m.outDenom ≠ s.std := fun e => F.denomsNe (h1.trans e.symm)
+        simp [h1, this]
+      · have : m.inDenom ≠ s.std := fun e => F.denomsNe (e.trans h1.symm)
+        simp [h1, this]
+    have hfind2 : s.poolByCounter (counterOf s.std m.inDenom m.outDenom) = some q := by rw [hc]; exact hfind
+    refine ⟨F.sold, F.bought, F.esc, q, hfind2, hres, hbank, F.denomsNe, ?_, ?_⟩
+    · intro hx; cases hx
+    · intro _
+      have h1 : 1 ≤ F.sold := by rw [hs]; exact Nat.le_add_left 1 _
+      refine ⟨hbought, hmax, h1, ?_⟩
+      simp only
+      rw [hs, hbought]
+      have hpos : 0 < (s.bank.get F.esc m.outDenom - m.outAmt.toNat) * (S18 - s.params.fee) := Nat.pos_of_ne_zero hne
+      constructor
+      · simp only [Nat.add_sub_cancel]; exact Nat.div_mul_le_self _ _
+      · exact Nat.lt_mul_of_div_lt (Nat.lt_succ_self _) hpos
+
+open Spec in
+/-- the executable predicates `swap_bounds` and `swap_rounding` the driver evaluates on implementation
+transitions hold of every successful swap of the model (payer not a pool's escrow) -/
+theorem swap_bounds_rounding_monitor {env : Env} {s s' : State} {m : MsgSwap} {r : Resp} (hW : WF env s)
+    (hS : SignerOK s (.swap m)) (h : swap env s m = .ok (s', r)) :
+    c08_swapBounds { env := env, pre := s, op := .swap m, ok := true, resp := r, post := s' } = true ∧
+    c08_swapRounding { env := env, pre := s, op := .swap m, ok := true, resp := r, post := s' } = true := by
+  obtain ⟨sold, bought, esc, p, hfind, hres, hbank, hne, hsell, hbuy⟩ := swap_full h
+  obtain ⟨hmem, _⟩ := mem_of_poolByCounter hfind
+  have hesc : p.escrow = esc := by
+    have := hW.reserveOk p hmem
+    rw [hres] at this; injection this with this; exact this.symm
+  have hin : m.inAddr.bytes ≠ esc := by
+    rw [← hesc]; exact hS m.inAddr.bytes rfl p hmem
+  have hfind' : s.poolByCounter (if m.inDenom == s.std then m.outDenom else m.inDenom) = some p := hfind
+  simp only [c08_swapBounds, c08_swapRounding, swapMsgOf, Bool.not_true, Bool.false_or, hfind', hesc]
+  by_cases hc : (m.outAddr.bytes == esc) = true
+  · simp only [hc, if_true, and_self]
+  · simp only [hc]
+    simp only [beq_iff_eq] at hc
+    obtain ⟨a1, a2, _, _⟩ := swapEffs_exact hbank hin hc hne
+    have hg : gain { env := env, pre := s, op := Op.swap m, ok := true, resp := r, post := s' } esc m.inDenom = sold := by
+      simp only [gain]; rw [a1]; omega
+    have hl : loss { env := env, pre := s, op := Op.swap m, ok := true, resp := r, post := s' } esc m.outDenom = bought := by
+      simp only [loss]; omega
+    simp only [Bool.false_eq_true, if_false, hg, hl]
+    cases hb : m.isBuy with
+    | false =>
+      obtain ⟨e1, e2, e3, e4⟩ := hsell hb
+      simp only [Bool.false_eq_true, if_false, Bool.and_eq_true, beq_iff_eq, decide_eq_true_eq]
+      exact ⟨⟨e1, e2⟩, e3, e4⟩
+    | true =>
+      obtain ⟨e1, e2, e3, e4, e5⟩ := hbuy hb
+      simp only [if_true, Bool.and_eq_true, beq_iff_eq, decide_eq_true_eq]
+      exact ⟨⟨e1, e2⟩, ⟨e4, e5⟩, e3⟩
+
 example : (step exEnv exState exSell).toBool = true := by decide +kernel
 example : (step exEnv exState exBuy).toBool = true := by decide +kernel
 example : (step exEnv exState exAdd).toBool = true := by decide +kernel
